@@ -567,9 +567,28 @@ def inline_helpers(fn: ast.FunctionDef, methods: T.Dict[str, T.Any], vocab: T.It
                 return None
             if rets:
                 body = body[:-1] or [ast.Pass()]
-        elif mode == 'assign':
-            if not (len(rets) == 1 and rets[0] is body[-1] and rets[0].value is not None):
+        search = False
+        if mode == 'assign' and not (len(rets) == 1 and rets[0] is body[-1] and rets[0].value is not None):
+            # a search helper: `for ..: .. return A` (not inside a further loop) directly followed by the final `return B`
+            if not (len(body) >= 2 and isinstance(body[-1], ast.Return) and body[-1].value is not None and isinstance(body[-2], ast.For)
+                    and not body[-2].orelse and all(r.value is not None for r in rets)):
                 return None
+            inner = [r for r in rets if r is not body[-1]]
+
+            def direct(stmts: T.List[ast.stmt]) -> T.List[ast.Return]:      # returns of the loop body that a `break` can stand for
+                found: T.List[ast.Return] = []
+                for st_ in stmts:
+                    if isinstance(st_, ast.Return):
+                        found.append(st_)
+                    elif isinstance(st_, (ast.If, ast.With, ast.Try)):
+                        for f_ in ('body', 'orelse', 'finalbody'):
+                            found += direct(getattr(st_, f_, []) or [])
+                        for h_ in getattr(st_, 'handlers', []):
+                            found += direct(h_.body)
+                return found
+            if not inner or {id(r) for r in direct(body[-2].body)} != {id(r) for r in inner}:
+                return None
+            search = True
         counter[0] += 1
         names = {a.arg for a in callee.args.args + callee.args.kwonlyargs if a.arg != 'self'}
         names |= {n.id for s in body for n in ast.walk(s) if isinstance(n, ast.Name) and isinstance(n.ctx, (ast.Store, ast.Del))}
@@ -578,7 +597,30 @@ def inline_helpers(fn: ast.FunctionDef, methods: T.Dict[str, T.Any], vocab: T.It
         if binds is None:
             return None
         new = [_Rename(ren).visit(copy.deepcopy(s)) for s in body]
-        if mode == 'assign':
+        if mode == 'assign' and search:
+            res = f'_{callee.name.strip("_")}{counter[0]}_result'
+
+            def to_break(stmts: T.List[ast.stmt]) -> T.List[ast.stmt]:
+                out_: T.List[ast.stmt] = []
+                for st_ in stmts:
+                    if isinstance(st_, ast.Return):
+                        out_ += [ast.copy_location(ast.Assign(targets=[ast.Name(id=res, ctx=ast.Store())], value=st_.value, lineno=st_.lineno), st_),
+                                 ast.copy_location(ast.Break(), st_)]
+                        continue
+                    if isinstance(st_, (ast.If, ast.With, ast.Try)):
+                        for f_ in ('body', 'orelse', 'finalbody'):
+                            if getattr(st_, f_, None):
+                                setattr(st_, f_, to_break(getattr(st_, f_)))
+                        for h_ in getattr(st_, 'handlers', []):
+                            h_.body = to_break(h_.body)
+                    out_.append(st_)
+                return out_
+            loop_, last_ = new[-2], new[-1]
+            loop_.body = to_break(loop_.body)
+            loop_.orelse = [ast.copy_location(ast.Assign(targets=[ast.Name(id=res, ctx=ast.Store())], value=last_.value, lineno=last_.lineno), last_)]
+            new = new[:-1]
+            result = ast.Name(id=res, ctx=ast.Load())
+        elif mode == 'assign':
             result = new[-1].value
             new = new[:-1]
         elif mode == 'return' and _falls_off(new):
